@@ -16,7 +16,9 @@ RULE = (
     'water-level record offset against the rain record) and G-scenario '
     '(event sequences: storms with trailing drizzle, lagging / leading '
     'rises, two bursts in one rise, two rises in one burst, bursts without '
-    'response, unexplained rises) x lattice thresholds (often equal to a '
+    'response, unexplained rises) and a contention generator (long mixed '
+    'runs of heavy / drizzle steps and jump / small increments so that storms '
+    'overlap several rises and vice versa) x lattice thresholds (often equal to a '
     'data value); ~10% of cases run through the command line on a file, the '
     'rest through load_data / classify_intervals on :memory:. Oracle: no '
     'exception (a dataset without any water level must be refused with the '
@@ -32,8 +34,10 @@ ASSUMPTIONS = ['load is correct (C10)']
 
 @st.composite
 def cases(draw, tier):
-    record = draw(gen_records.records(
-        max_steps=30 if tier == 'quick' else 60))
+    from vfw.props.C02 import contention_records, chain_records
+    record = draw(st.one_of(
+        gen_records.records(max_steps=30 if tier == 'quick' else 60),
+        contention_records(), chain_records()))
     record['cli'] = draw(st.integers(0, 9)) == 0
     return record
 
@@ -108,4 +112,8 @@ PARTS = [
     Part('records', check, strategy=lambda tier: cases(tier),
          budget={'quick': 375, 'thorough': 4000},
          describe='load + classify on generated records'),
+    Part('records_fuzz', check, fuzz_of='records', fuzz_runs=15000,
+         shards={'quick': 0, 'thorough': 4},
+         describe='atheris campaign over the records strategy and oracle '
+                  '(thorough tier only)'),
 ]
